@@ -174,6 +174,10 @@ def lower_range(node, surface):
                     counts.append(spec_to_str(sp, surface, ty or "i32"))
             if style == "pipe":
                 counts = [(surface.ws() + "|" + surface.ws()).join(str(c) for c in counts)]
+            elif len(counts) >= 3 and (br.get("mixed") or (not surface.plain and rng.random() < 0.4)):
+                # a list in which a non-first element is itself a `|` string: ["v", c1, "c2 | c3", c4]
+                i = rng.randint(1, len(counts) - 2)
+                counts = counts[:i] + [(surface.ws() + "|" + surface.ws()).join(str(c) for c in counts[i:i + 2])] + counts[i + 2:]
         if style == "map":
             d = {}
             if counts is not None:
@@ -629,7 +633,7 @@ def gen_value(rng, cfg, kinds=None):
         if ty == "int":
             v = pick(rng, [0, 1, -1, 42, -7, 2**31, 2**63 - 1, -2**63, 2**64 - 1, 1000000])
         elif ty == "float":
-            v = pick(rng, [0.5, 59.89, -2.25, 1e3 + 0.5, 1.0e-3, 3.0, 123456.789])
+            v = pick(rng, [0.5, 59.89, -2.25, 1e3 + 0.5, 1.0e-3, 3.0, 123456.789, 6.02e23, 1.5e-7, -0.0, 1e16])
         else:
             v = rng.random() < 0.5
         return {"k": "lit", "ty": ty, "v": v}
